@@ -148,6 +148,47 @@ def hist_job(e, p):
 
 def native_cmd(case): return dict(case, cmd='adf_history')
 
+def rand_twin_job(e, p):
+    """"with the same seed for Rand": the same call sequence on two freshly built objects that were given the same seed.  A seed fixes the draw sequence
+    of the object's generator, so both runs receive the *same* solver variables as draws (the rand model numbers seeded draws per run); any other
+    source of randomness (thread-local generator, entropy) hands out unrelated variables.  The answers must be equal as ordered lists."""
+    n = p['n']; procs = p['procs']
+    tabs = A.family_tabs(n, p['fam'])
+    e.hooks['entropy_is_unseeded'] = True; e.hooks['max_draws'] = p.get('max_draws', 40)
+    def case(m): return {'n': n, 'tabs': tables_from_model(m, [[zb(b) for b in t] for t in tabs]), 'history': procs, 'final': 'rand-twin'}
+    runs = []
+    for run in range(2):
+        e.hooks['draws'] = 0
+        adf, ra, bdd = A.make_adf(e, tabs, n)
+        e.call('adf::Adf::seed', [ra, VecObj([7] + [0] * 31)])
+        out = []
+        for pr in procs:
+            res, _ = semjobs.run_proc(e, pr, ra, adf)
+            out.append([A.classes(e, v) for v in res])
+        runs.append(out)
+    if p.get('canary'): runs[1] = [list(reversed(x)) + ['canary'] for x in runs[1]]
+    if runs[0] != runs[1]:
+        m = sat_model(e, True)
+        report(e, 'not-reproducible', what='same seed, same call sequence %s on two fresh objects: first run %s, second run %s' % (procs, runs[0], runs[1]), case=case(m))
+    return {'procs': procs, 'draws': e.hooks.get('draws', 0), 'unseeded_draws': e.hooks.get('entropy_draws', 0)}
+
+
+def replay_twin(ctx, v):
+    """natively: the call sequence with a fixed seed on fresh objects, repeated; transcripts must be identical (and every answer a correct set)"""
+    c = v['case']; nat = ctx.native()
+    for sd in (1, 7, 12345):
+        seen = None
+        for rep in range(25):
+            tr = []
+            # adf_sem builds a fresh object, seeds it and runs one procedure; a sequence is replayed by its first procedure only when it has one element
+            for pr in c['history']:
+                out = nat.call({'cmd': 'adf_sem', 'n': c['n'], 'tabs': c['tabs'], 'proc': pr, 'seed': sd}, timeout=10)
+                tr.append(out.get('result'))
+            if seen is None: seen = tr
+            elif tr != seen: return 'reproduced', {'seed': sd, 'first_transcript': seen, 'differing_transcript': tr, 'repetition': rep}
+    return 'not-reproduced', {'note': '25 repetitions under 3 seeds gave identical transcripts'}
+
+
 def oracle_problems(out, case):
     """the native answer of a semantics procedure judged against the definition (python oracle on the concrete tables)"""
     fin = case['final']
@@ -168,6 +209,7 @@ def judge(out):
     return probs
 
 def replay(ctx, v):
+    if v['kind'] == 'not-reproducible': return replay_twin(ctx, v)
     out = ctx.native().call(native_cmd(v['case']), timeout=30)
     probs = judge(out) + oracle_problems(out, v['case'])
     if probs: return 'reproduced', {'native_output': out, 'problems': probs}
@@ -229,10 +271,16 @@ def spec(ctx, tier, seed):
     # determinism: hash containers iterate in every possible order during the history
     jobs.append(Job('n2-hashorder-heu_a+facet_count=>stable', mod, 'hist_job', {'n': 2, 'fam': ['sym', [0, 1, 1, 0]], 'history': ['facet_count', 'heu_a'], 'final': 'stable', 'hash_perm': True},
                     stop_after_violations=40))
+    # determinism under a fixed seed for Rand: twin runs on fresh objects with the same seed
+    jobs.append(Job('rand-twin-n2-twoval', mod, 'rand_twin_job', {'n': 2, 'fam': ['sym', 'sym'], 'procs': ['twoval_channel:Rand']}, stop_after_violations=10, max_steps=20_000_000))
+    jobs.append(Job('rand-twin-n2-nogood', mod, 'rand_twin_job', {'n': 2, 'fam': ['sym', [0, 1, 1, 0]], 'procs': ['nogood:Rand']}, stop_after_violations=10, max_steps=20_000_000))
+    if tier != 'quick':
+        for i, fam in enumerate(semjobs.families(3, 1, rng, 2)):
+            jobs.append(Job('rand-twin-n3-%d' % i, mod, 'rand_twin_job', {'n': 3, 'fam': fam, 'procs': [['twoval_channel:Rand'], ['nogood:Rand']][i % 2]}, stop_after_violations=10, max_steps=20_000_000))
     jobs.append(Job('canary', mod, 'hist_job', {'n': 2, 'fam': ['sym', 'sym'], 'history': ['grounded'], 'final': 'stable', 'canary': True}, stop_after_violations=1, canary=True))
     return {'jobs': jobs, 'level': 'model_checking', 'allowed_status': ('ok', 'panic', 'bound'),
-            'assumptions': ASSUMPTIONS + ['crossbeam channel FIFO model', 'Rand is excluded from fresh-object comparison (symbolic draws); its determinism for equal seeds follows from the executor being deterministic on equal draw sequences'],
+            'assumptions': ASSUMPTIONS + ['crossbeam channel FIFO model', 'Rand: a seed fixes the draw sequence (twin runs receive the same solver variables as draws); draws from the thread-local generator or from entropy are unrelated between runs'],
             'bounds': '%d call histories of length 1-%d drawn from VERIF_SEED over {%s} followed by a final query from {%s}, each on all 256 two-statement ADFs; 3-statement families with one symbolic statement; '
                       'one job where every hash-container iteration order is explored (symbolic permutation). After each history: answer vs fresh object, acceptance handles vs submitted tables, '
                       'audit of every entry of ite_cache / restrict_cache / var_deps / count_cache / unique table.' % (len(hists), 3 if tier == 'quick' else 5, ', '.join(CALLS), ', '.join(FINALS)),
-            'outside': 'histories longer than stated; Rand; objects of the biodivine-based Adf type (bridged-shaped stores of the naive type are included)'}
+            'outside': 'histories longer than stated; Rand in the fresh-object comparison (covered by C05; here only its reproducibility under a fixed seed, on all two-statement ADFs); objects of the biodivine-based Adf type (bridged-shaped stores of the naive type are included)'}
